@@ -115,7 +115,15 @@ def realise(recipe):
     for s in recipe['common']:
         d.styles.addElement(build_style(s), check_grammar=False)
     for s in recipe['auto']:
-        d.automaticstyles.addElement(build_style(s), check_grammar=False)
+        e = build_style(s)
+        if s.get('late_name'):
+            # a second style:style under an existing name would be renamed to 'M'+name when it is added
+            # (__register_stylename); give it its name once it is in the tree
+            put(e, STYLE_NAME, s['name'] + u'__tmp')
+            d.automaticstyles.addElement(e, check_grammar=False)
+            put(e, STYLE_NAME, s['name'])
+        else:
+            d.automaticstyles.addElement(e, check_grammar=False)
     main = [c for c in d.body.childNodes][0] if d.body.childNodes else d.body
     for r in recipe['body']:
         main.addElement(build(r), check_grammar=False)
@@ -152,6 +160,40 @@ def gen_structured(T):
                     part = MASTER_PARTS[i % len(MASTER_PARTS)]
                     r['master'].append(el((NS['style'], 'master-page'), [(STYLE_NAME, 'Standard')], [el(part, (), [site])]))
                 yield r, {'gen': 'structured', 'attr': '%s:%s' % T['names'][a], 'side': side, 'shape': shape}
+
+
+def gen_shared(T):
+    """fixed cases: several automatic styles of different kinds share one name and the name is referenced from the
+    body / a master page / both, directly and through another automatic style; every definition must be written"""
+    text_sn = (NS['text'], 'style-name')
+    groups = [['paragraph', 'list'], ['list', 'paragraph'], ['paragraph', 'text', 'number'],
+              ['pagelayout', 'paragraph', 'list', 'date'], ['graphic', 'table-cell'], ['number', 'percentage', 'currency']]
+    attrs = [text_sn, (NS['style'], 'list-style-name'), (NS['style'], 'data-style-name'), (NS['draw'], 'style-name'),
+             (NS['style'], 'page-layout-name'), (NS['text'], 'class-names')]
+    for gi, kinds in enumerate(groups):
+        for side in ('body', 'master', 'both'):
+            for shape in ('direct', 'chain'):
+                r = empty_recipe(['text', 'spreadsheet', 'presentation'][gi % 3])
+                seen = False
+                r['auto'].append(style_recipe('text', 'Unused'))
+                for kind in kinds:
+                    st = style_recipe(kind, 'Bullets')
+                    if KINDS[kind][0] == (NS['style'], 'style'):
+                        st['late_name'] = seen; seen = True
+                    r['auto'].append(st)
+                r['auto'].append(style_recipe('paragraph', 'Other'))
+                a = attrs[gi % len(attrs)]
+                if shape == 'direct':
+                    site = el((NS['text'], 'p'), [(a, 'Bullets')], text='t')
+                else:
+                    r['auto'].append(style_recipe('graphic', 'Mid1', refs=[(a, 'Bullets')]))
+                    site = el((NS['draw'], 'frame'), [((NS['draw'], 'style-name'), 'Mid1')])
+                if side in ('body', 'both'):
+                    r['body'].append(site)
+                if side in ('master', 'both'):
+                    r['master'].append(el((NS['style'], 'master-page'), [(STYLE_NAME, 'Standard')],
+                                          [el(MASTER_PARTS[gi % len(MASTER_PARTS)], (), [site])]))
+                yield r, {'gen': 'shared', 'kinds': kinds, 'side': side, 'shape': shape, 'dup': True}
 
 
 def gen_random(rng, T):
@@ -216,11 +258,22 @@ def gen_random(rng, T):
             rf = rf + [x for x in kf if x[0] not in [y[0] for y in rf]]; kf = []
         r['auto'].append(style_recipe(kind, name, rf, kf))
     dup = False
-    if nauto >= 2 and rng.random() < 0.15:
-        # two automatic styles under one name (e.g. a list style and a paragraph style; two style:style elements
-        # would be renamed by the library when the second is added)
-        i, j = rng.sample(range(nauto), 2)
-        r['auto'][j]['name'] = r['auto'][i]['name']; dup = True
+    if nauto >= 2 and rng.random() < 0.4:
+        # 2..4 automatic styles of DIFFERENT kinds under one name (each is its own definition: a paragraph style,
+        # a list style, a data style, a page layout ... called "A0"); the shared name is the one the roots refer to
+        group = [0] + rng.sample(range(1, nauto), min(nauto - 1, rng.randint(1, 3)))
+        kinds = rng.sample(KIND_NAMES, len(group))
+        seen_style = False
+        for g, kind in zip(group, kinds):
+            st = r['auto'][g]
+            st['name'] = r['auto'][0]['name']; st['kind'] = kind
+            if KINDS[kind][2] is None and st['kidrefs']:
+                st['refs'] = st['refs'] + [x for x in st['kidrefs'] if x[0] not in [y[0] for y in st['refs']]]
+                st['kidrefs'] = []
+            if KINDS[kind][0] == (NS['style'], 'style'):
+                st['late_name'] = seen_style
+                seen_style = True
+        dup = True
     rng.shuffle(r['auto'])
     for name in commons:
         r['common'].append(style_recipe(rng.choice(['paragraph', 'text', 'graphic', 'number']), name,
@@ -364,7 +417,7 @@ def oracle(doc, T):
                 common_names.add(attr_of(s, STYLE_NAME))
     fails = []
     sites = 0
-    stats = {'auto_ref_resolved': 0, 'auto_ref_dangling': 0, 'styles_written': 0}
+    stats = {'auto_ref_resolved': 0, 'auto_ref_dangling': 0, 'styles_written': 0, 'shared_name_definitions_checked': 0}
     for pname in ('content.xml', 'styles.xml'):
         root = parts[pname]
         auto = child(root, (NS['office'], 'automatic-styles'))
@@ -376,8 +429,12 @@ def oracle(doc, T):
                 fails.append(('phantom-style', '%s writes automatic style %r that the document does not have' % (pname, nm)))
             elif not any(mem_infoset(c) == s for c in cands):
                 fails.append(('definition-changed', '%s writes automatic style %r with a different definition' % (pname, nm)))
-            if nm is not None and wnames.count(nm) > len(cands) and cands:
-                fails.append(('written-twice', '%s writes automatic style %r %d times' % (pname, nm, wnames.count(nm))))
+            else:
+                # at most once per part, per ELEMENT: a definition is written as often as the document has it, not more
+                have = sum(1 for c in cands if mem_infoset(c) == s)
+                if sum(1 for w in written if w == s) > have:
+                    fails.append(('written-twice', '%s writes the definition <%s style:name=%r> more often than the document has it'
+                                  % (pname, s[0][1], nm)))
         wset = set(wnames)
         stats['styles_written'] += len(written)
         for top in root[2]:
@@ -393,6 +450,17 @@ def oracle(doc, T):
                             sites += 1
                             if name in mem_auto and name in wset:
                                 stats['auto_ref_resolved'] += 1
+                                # several automatic styles (of different kinds) may carry this name: each one is a
+                                # definition of its own and the reference may mean any of them - all must be there
+                                for c in mem_auto[name]:
+                                    ci = mem_infoset(c)
+                                    if len(mem_auto[name]) > 1:
+                                        stats['shared_name_definitions_checked'] += 1
+                                    if not any(w == ci for w in written):
+                                        fails.append(('shared-name-definition-dropped',
+                                                      '%s: <%s %s="%s"> refers to %r; the document has %d automatic styles of that name, '
+                                                      'the <%s> one is not written to this part'
+                                                      % (pname, e[0][1], k[1], v, name, len(mem_auto[name]), c.qname[1])))
                             if name in mem_auto and name not in wset and name not in common_names:
                                 stats['auto_ref_dangling'] += 1
                                 if pname == 'styles.xml' and inside_auto:
@@ -463,7 +531,7 @@ def run_doc(chk, recipe, info, T, lines, pend, recipes):
     nontrivial = sites > 0 and len(recipe['auto']) > 0
     chk.case(json.dumps(recipe, sort_keys=True), nontrivial=nontrivial,
              sample={'info': info, 'auto': [s['name'] for s in recipe['auto']], 'sites': sites,
-                     'failures': sorted(set(f[0] for f in fails))} if info.get('gen') == 'random' else None)
+                     'failures': sorted(set(f[0] for f in fails))} if info.get('gen') != 'structured' else None)
     chk.count('gen_' + info['gen'])
     chk.count('reference_sites_checked', sites)
     for k, v in sorted(oracle.stats.items()):
@@ -475,7 +543,7 @@ def run_doc(chk, recipe, info, T, lines, pend, recipes):
     if 'chain' in info:
         chk.count('chain_len_%d' % info['chain'])
     if 'side' in info:
-        chk.count('structured_%s_%s' % (info['side'], info['shape']))
+        chk.count('%s_%s_%s' % (info['gen'], info['side'], info['shape']))
     for s in recipe['auto']:
         chk.count('kind_' + s['kind'])
     seen = set()
@@ -490,7 +558,8 @@ def run_doc(chk, recipe, info, T, lines, pend, recipes):
 def run(chk, replay=None):
     from odf import opendocument
     chk.rule = ('structured: every schema style-reference attribute x {body, master page} x {direct, through an automatic style}; '
-                'random: style graphs with 1..9 automatic styles of 11 kinds, chains up to 6, references from body trees, '
+                'shared: 2..4 automatic styles of different kinds under one name, referenced from body / master page / both, directly and through a style; '
+                'random: style graphs with 1..9 automatic styles of 11 kinds (40% with a name shared across kinds), chains up to 6, references from body trees, '
                 'master pages (header/footer/shapes/notes), other automatic styles, common styles; '
                 'non-trivial = at least one reference site and one automatic style')
     T = translate_styles.tables()
@@ -518,6 +587,8 @@ def run(chk, replay=None):
     # 3+4 correspondence and oracle
     lines, pend, recipes = [], [], []
     for recipe, info in gen_structured(T):
+        run_doc(chk, recipe, info, T, lines, pend, recipes)
+    for recipe, info in gen_shared(T):
         run_doc(chk, recipe, info, T, lines, pend, recipes)
     nrand = 5000 if chk.tier == 'thorough' else 600
     for _ in range(nrand):
